@@ -926,6 +926,11 @@ class SFTPClient(BaseSFTP, ClosingContextManager):
                     break
             self._read_response()
             fileobj._check_exception()
+        # Some other request on this session (a stat() from a progress
+        # callback, a read on another file, ...) may have read this file's
+        # replies already: an error they carried is saved on the file, and
+        # nobody has raised it yet.
+        fileobj._check_exception()
 
     def _convert_status(self, msg):
         """
